@@ -1,7 +1,7 @@
 CONSTANTS
   MaxLines = 4
   StyleClasses = {"S1", "S2", "S3", "M1", "M2", "B1", "B2", "J"}
-  WithMcx = FALSE
+  WithMcx = TRUE
 SPECIFICATION Spec
 INVARIANT MechanismMeetsRequirement
 INVARIANT MFirstStaysFirst
